@@ -978,3 +978,9 @@ CASES["C13"] += [
 CASES["C04"] += [
     ("reintroduce F-56 (RoCC partners traced while the lowering erases setups)", "mutant", "snaxc/transforms/convert_accfg_to_csr.py", "@revert:a5750d5~1", "", ["C04.retrace-intact"]),
 ]
+CASES["C17"] += [
+    ("reintroduce F-57 (loops with negative upper bounds merged)", "mutant", "snaxc/transforms/pipeline/pipeline_canonicalize_for.py", "@revert:1d46a6e~1", "", ["C17.merge-guards"]),
+]
+CASES["C03"] += [
+    ("reintroduce F-58 (rotate(0) duplicates dimension 0)", "mutant", "snaxc/ir/dart/access_pattern.py", "@revert:f9f6d6f~1", "", ["C03.rotate"]),
+]
